@@ -229,6 +229,9 @@ func secReqs(shape string) []any {
 // the callback; an empty requirement needs no authentication.
 func SecurityModel(d SDoc, accepted func(scheme string, scopes []string) bool) bool {
 	shape := d.SecOp
+	if shape == "nil_slice_ptr" {
+		return true // the operation declares its own, empty, list
+	}
 	if shape == "" {
 		shape = d.SecDoc
 	}
@@ -308,7 +311,7 @@ func (d SDoc) JSON() []byte {
 		}
 		pathLevel = append(pathLevel, map[string]any{"name": p.Name, "in": p.In, "schema": sch})
 	}
-	if d.SecOp != "" {
+	if d.SecOp != "" && d.SecOp != "nil_slice_ptr" {
 		op["security"] = secReqs(d.SecOp)
 	}
 	if d.BodyKind != "" {
@@ -417,4 +420,17 @@ func LoadWorld(data []byte) (*World, error) {
 		return nil, fmt.Errorf("router: %w", err)
 	}
 	return &World{Doc: doc, Router: r}, nil
+}
+
+// PatchSecurity gives the operation the security declaration a document built in
+// Go may have and a parsed one cannot: a non-nil pointer to a nil list. The
+// operation then declares a list of its own (an empty one), so the document's
+// requirements do not apply.
+func (w *World) PatchSecurity(shape string) {
+	if shape != "nil_slice_ptr" {
+		return
+	}
+	if pi := w.Doc.Paths.Value("/thing"); pi != nil && pi.Post != nil {
+		pi.Post.Security = new(openapi3.SecurityRequirements)
+	}
 }
